@@ -1,10 +1,12 @@
 /-
 C11 — no input file can crash, hang or corrupt the reader: the part the model carries.
+(1) the number scanner, (2) the lexical layer of the LP reader (`Qsx.LpLex`, read_lp.c).
 Every numeric field of an LP, MPS or basis file is handed to the number scanner; the scanner is a
 total function (structural recursion on the text), never reports more characters than the text
 has, and never reaches a division with a zero divisor.
 -/
 import Qsx.Proofs.NumScan
+import Qsx.Proofs.LpLexSafe
 
 namespace Qsx.Props.C11
 open Qsx.Num
@@ -20,5 +22,66 @@ theorem scan_never_divides_by_zero (cs : List Char) (q : Rat) (n : Nat) (h : sca
     ∀ v0, (scanLoop {} cs).first = some v0 →
       finishVal (scanLoop {} cs).num (scanLoop {} cs).den (scanLoop {} cs).lExp (scanLoop {} cs).expSgn (scanLoop {} cs).sgn ≠ 0 :=
   Qsx.Num.scan_no_div_zero cs q n h
+
+
+/-! ### the lexical layer of the LP reader (read_lp.c), model `Qsx.LpLex`
+
+A lexer call is `Safe` when it answers (the model never had to read behind the string terminator of the line buffer)
+and leaves the cursor inside the string.  Every function is safe from every state with the cursor inside the string,
+so by induction every sequence of lexer calls after `ILLread_lp_state_init` is - for every file. -/
+open Qsx.LpLex in
+theorem lplex_init_safe (file : List (List Char)) : ∃ s, init file = some s ∧ Inv s := init_safe file
+
+open Qsx.LpLex in
+/-- every lexer function, from every state with the cursor inside the string -/
+theorem lplex_safe (s : LpLex.St) (h : Inv s) :
+    Safe (nextLine s) ∧ (∀ w, Safe (skipBlanks s w)) ∧ (∀ a, Safe (nextField s a)) ∧
+    (∃ s', prevField s = some s' ∧ Inv s') ∧ Safe (nextVar s) ∧ (∀ k, Safe (keyword s k)) ∧
+    Safe (colon s) ∧ Safe (hasColon s) ∧ Safe (nextConstraint s) ∧ Safe (sign s) ∧
+    (∀ str, Safe (testNextIs s str)) ∧ Safe (value s) ∧ Safe (possibleBoundValue s) ∧
+    (∀ a, Safe (testSense s a)) ∧ Safe (readSense s) ∧ Safe (checkSubjectTo s) ∧
+    (∃ s', lpError s = some s' ∧ Inv s') :=
+  ⟨nextLine_safe s h, fun w => skipBlanks_safe s w h, fun a => nextField_safe s a h, prevField_safe s h,
+   nextVar_safe s h, fun k => keyword_safe s k h, colon_safe s h, hasColon_safe s h, nextConstraint_safe s h,
+   sign_safe s h, fun str => testNextIs_safe s str h, value_safe s h, possibleBoundValue_safe s h,
+   fun a => testSense_safe s a h, readSense_safe s h, checkSubjectTo_safe s h, lpError_safe s h⟩
+
+open Qsx.LpLex in
+/-- the generic loop `while (P (*p, k)) p++` stays inside the string exactly because P rejects the terminator -/
+theorem lplex_scan_loop_safe (P : Char → Nat → Bool) (hP : ∀ k, P NUL k = false) (b : List Char) (i k : Nat) (h : i ≤ b.length) :
+    ∃ j, scanWhile P b i k = some j ∧ i ≤ j ∧ j ≤ b.length := scanWhile_safe P hP b i k h
+
+open Qsx.LpLex in
+/-- `has_colon` as it was before fix ef5c071 (`for (pp = p; *pp != '\n'; pp++)`): on the one-character line `x` without
+a line break the loop walks over the terminator - the defect the theorem above excludes for the repaired code -/
+theorem has_colon_before_fix_reads_behind_terminator :
+    scanWhile (fun c _ => c != '\n' && c != ':') ['x'] 0 0 = none := by decide
+
+open Qsx.LpLex in
+/-- progress: a token read that reports success leaves strictly less input (rest of the line plus everything the line
+reader has not delivered yet), so a parser loop that reads a token per round terminates on every file -/
+theorem lplex_progress (s s' : LpLex.St) :
+    (colon s = some (s', 0) → remaining s' < remaining s) ∧
+    (∀ sg, sign s = some (s', 0, sg) → remaining s' < remaining s) ∧
+    (nextVar s = some (s', 0) → remaining s' < remaining s) ∧
+    (∀ v, value s = some (s', 0, v) → remaining s' < remaining s) :=
+  ⟨colon_progress, fun _ => sign_progress, nextVar_progress, fun _ => value_progress⟩
+
+open Qsx.LpLex in
+/-- moving over blanks and on to following lines never yields more input than there was -/
+theorem lplex_skip_monotone (s s' : LpLex.St) (w : Bool) (r : Int) (h : skipBlanks s w = some (s', r)) :
+    remaining s' ≤ remaining s := skipBlanks_rem h
+
+/-- a two-line text read as name - colon - sign - value -/
+def lplexDemo : Option (List Char × Int × Int × Int × Int × Int × Bool × Nat) := do
+  let s ← Qsx.LpLex.init [" c1: -3/4 x\n".toList, "end".toList]
+  let (s, r1) ← Qsx.LpLex.nextVar s
+  let (s, r2) ← Qsx.LpLex.colon s
+  let (s, r3, sg) ← Qsx.LpLex.sign s
+  let (s, r4, v) ← Qsx.LpLex.value s
+  pure (s.field, r1, r2, r3, sg, r4, v.isSome, s.p)
+
+/-- the hypotheses are satisfiable and the functions do something -/
+example : (lplexDemo == some (['c', '1'], 0, 0, 0, -1, 0, true, 9)) = true := by decide +kernel
 
 end Qsx.Props.C11
